@@ -606,6 +606,10 @@ class BaseART(BaseEstimator, ClusterMixin):
             If True, displays progress of the fitting process.
 
         """
+        if verbose:
+            # fail before the model is reset if the optional progress bar is missing
+            from tqdm import tqdm  # noqa: F401
+
         self.validate_data(X)
         self.check_dimensions(X)
         self.is_fitted_ = True
@@ -739,6 +743,10 @@ class BaseART(BaseEstimator, ClusterMixin):
             colors = cm.rainbow(np.linspace(0, 1, n_cluster_estimate))
             black = np.array([[0, 0, 0, 1]])  # RGBA for black
             colors = np.vstack((colors, black))  # Add black at the end
+
+        if verbose:
+            # fail before the model is reset if the optional progress bar is missing
+            from tqdm import tqdm  # noqa: F401
 
         self.validate_data(X)
         self.check_dimensions(X)
